@@ -113,6 +113,22 @@ func checkC12(c *core.Check) {
 	specs = append(specs, spec{"map-fat", core.GenJob{Spec: string(fat), SpecName: "openapi.yaml", Package: "gen", SpecHandler: "openapi.yaml", Client: true, APIHandler: true, DoNotEdit: true, Config: "cors:\n  enable: true\n"}})
 	cp, _ := json.MarshalIndent(casePairDoc(), "", " ")
 	specs = append(specs, spec{"case-pairs", core.GenJob{Spec: string(cp), SpecName: "openapi.yaml", Package: "gen", SpecHandler: "openapi.yaml", Client: true, APIHandler: true, DoNotEdit: true}})
+	// seeded random compositions: pipeline features (randkitchen.go) and schema constructs (randschema.go)
+	rk := rand.New(rand.NewSource(c.Seed + 1212))
+	for k := 0; k < 4; k++ {
+		a := randKitchen(rk, k*5+rk.Intn(100)*13)
+		a.Flags.Client = true
+		specs = append(specs, spec{fmt.Sprintf("random-kitchen-%d", k), a.Job(fmt.Sprintf("rk%d", k))})
+	}
+	{
+		a := codecCarrier("rs")
+		a.Flags.Client = true
+		for i, s := range randSchemas(rk, 40) {
+			addNullPools(a, s)
+			a.Schemas = append(a.Schemas, aspec.NamedSchema{Name: fmt.Sprintf("Rs%d", i), Schema: s})
+		}
+		specs = append(specs, spec{"random-schemas", a.Job("rs")})
+	}
 	ks := kitchenSpec()
 	ks.Flags.Client = true
 	specs = append(specs, spec{"kitchen", ks.Job("k")})
@@ -212,7 +228,7 @@ func checkC12(c *core.Check) {
 	c.Add("evaluations", int64(runs))
 	c.Add("distinct_nontrivial", int64(jr.Nontriv+len(jr.Rejects)))
 	c.Add("programs", int64(len(specs)))
-	c.Cov["rule"] = "TLC (MC_Determinism) checks, for every site of the site table and every permutation of 4 keys, that what the site emits does not depend on the schedule; on the code side a spec whose map keys differ only in case (properties, paths, component names, mapping keys, parameters), a map-fat spec (>= 4 entries in paths, schemas, properties, responses, headers, parameters, security schemes, one requirement object, discriminator mapping, server variables with interacting defaults, media types, scopes), the kitchen and carrier specs and a seeded sample of matrix cells are each generated procs x perProc times (separate processes x repeated runs); TLC (Trace_Determinism) requires equal results and file hashes; non-trivial = specs whose generation succeeds"
+	c.Cov["rule"] = "TLC (MC_Determinism) checks, for every site of the site table and every permutation of 4 keys, that what the site emits does not depend on the schedule; on the code side a spec whose map keys differ only in case (properties, paths, component names, mapping keys, parameters), seeded random compositions of pipeline features and of schema constructs, a map-fat spec (>= 4 entries in paths, schemas, properties, responses, headers, parameters, security schemes, one requirement object, discriminator mapping, server variables with interacting defaults, media types, scopes), the kitchen and carrier specs and a seeded sample of matrix cells are each generated procs x perProc times (separate processes x repeated runs); TLC (Trace_Determinism) requires equal results and file hashes; non-trivial = specs whose generation succeeds"
 	c.Cov["bounds"] = map[string]any{"specs": len(specs), "processes_per_spec": procs, "runs_per_process": perProc}
 	c.Sample(map[string]any{"spec": "map-fat", "document": trunc(string(fat), 1200)})
 	for _, rj := range jr.Rejects {
